@@ -215,14 +215,14 @@ Definition build (buf : list N) : bres :=
            end
   end.
 
-(* Path.String(); a recursive node that is last prints its own selector child *)
+(* Path.String() *)
 Fixpoint print_nodes (ns : list pnode) : list N :=
   match ns with
   | [] => []
   | NSel n :: r => 46 :: n ++ print_nodes r
   | NIdx i :: r => 91 :: show_Z i ++ 93 :: print_nodes r
   | NAll :: r => [91; 42; 93] ++ print_nodes r
-  | NRec n :: r => 46 :: 46 :: n ++ (match r with [] => 46 :: n | _ => print_nodes r end)
+  | NRec n :: r => 46 :: 46 :: n ++ print_nodes r
   end.
 Definition print_path (ns : list pnode) : list N :=
   match ns with [] => [36] | _ => print_nodes ns end.
